@@ -66,7 +66,17 @@ pub fn run(args: &Args) {
                             });
                         }
                     }
-                    let warning = if rng.chance(1, 4) { Some(rng.pick(&["", "w", "h\u{e9}llo"]).to_string()) } else { None };
+                    let warning = if rng.chance(1, 4) {
+                        Some(if rng.chance(1, 2) {
+                            rng.pick(&["", "w", "h\u{e9}llo"]).to_string()
+                        } else {
+                            // boundary lengths: the bencode length prefix changes its digit count
+                            let len = *rng.pick(&[9usize, 10, 11, 63, 64, 65, 99, 100, 101, 255, 256, 999, 1000]);
+                            (0..len).map(|_| (b'a' + rng.below(26) as u8) as char).collect::<String>()
+                        })
+                    } else {
+                        None
+                    };
                     let r = AnnounceResponse {
                         announce_interval: num(rng),
                         complete: num(rng),
@@ -113,8 +123,12 @@ pub fn run(args: &Args) {
                     items.push(format!("RScr {} {}", cq::list(&ft), cq::hex(&out)));
                 }
                 _ => {
-                    let reason = *rng.pick(&["Info hash not allowed", "", "x", "f\u{e4}il \u{1F600}"]);
-                    let r = FailureResponse::new(reason);
+                    let long: String = {
+                        let len = *rng.pick(&[9usize, 10, 11, 63, 64, 65, 99, 100, 101, 199, 200, 201, 1000]);
+                        (0..len).map(|_| (b'a' + rng.below(26) as u8) as char).collect()
+                    };
+                    let reason: &str = if rng.chance(1, 2) { &long } else { *rng.pick(&["Info hash not allowed", "", "x", "f\u{e4}il \u{1F600}"]) };
+                    let r = FailureResponse::new(reason.to_string());
                     let mut out = Vec::new();
                     r.write_bytes(&mut out).unwrap();
                     parse_back(&out);
